@@ -19,6 +19,7 @@ class Result:
         self.model = model
         self.reason = reason
         self.smt2 = smt2
+        self.candidate_model = None  # model of the quantifier-free part only (when the full problem is undecided)
 
     def __repr__(self):
         return f"Result({self.status}, {self.backend}, {self.ms:.0f}ms)"
@@ -63,8 +64,35 @@ def _run_external(cmd, smt2, timeout_s):
         os.unlink(path)
 
 
+def _has_quantifier(e, seen=None):
+    seen = seen if seen is not None else set()
+    if z3.is_quantifier(e):
+        return True
+    k = e.get_id()
+    if k in seen:
+        return False
+    seen.add(k)
+    return any(_has_quantifier(c, seen) for c in e.children())
+
+
+def _z3_check(hyps, goal, timeout_ms):
+    s = z3.Solver()
+    s.set("timeout", timeout_ms)
+    for h in hyps:
+        s.add(h)
+    s.add(z3.Not(goal))
+    t0 = time.time()
+    r = s.check()
+    return r, s, (time.time() - t0) * 1000
+
+
 def prove(hyps, goal, timeout_ms=None, want_model=True, backends=("z3", "ring", "cvc5", "z3old"), ring_first=False):
-    """Try to prove hyps |- goal.  unsat = proved, sat = refuted (model attached)."""
+    """Try to prove hyps |- goal.  unsat = proved, sat = refuted (model attached).
+
+    Strategy: (1) quantifier-free hypotheses only (fast; proving from fewer hypotheses is sound);
+    (2) all hypotheses; (3) ring normaliser / cvc5 / z3 4.8 on the full problem.  If (2),(3) stay
+    undecided but (1) found a model, that model is returned as a *candidate* refutation
+    (Result.candidate = True): it ignores the quantified hypotheses and only counts when it replays natively."""
     timeout_ms = timeout_ms or TIMEOUT_MS
     t0 = time.time()
     if ring_first and "ring" in backends:
@@ -73,12 +101,15 @@ def prove(hyps, goal, timeout_ms=None, want_model=True, backends=("z3", "ring", 
         ok, info = ring.prove_identity(hyps, goal)
         if ok:
             return Result("unsat", "ring-normaliser", (time.time() - t0) * 1000, reason=info)
-    s = z3.Solver()
-    s.set("timeout", timeout_ms)
-    for h in hyps:
-        s.add(h)
-    s.add(z3.Not(goal))
-    r = s.check()
+    qf = [h for h in hyps if not _has_quantifier(h)]
+    candidate = None
+    if len(qf) != len(hyps):
+        r, s, ms = _z3_check(qf, goal, min(timeout_ms, 5000))
+        if r == z3.unsat:
+            return Result("unsat", "z3-5.1", ms)
+        if r == z3.sat:
+            candidate = s.model()
+    r, s, ms = _z3_check(hyps, goal, timeout_ms if candidate is None else min(timeout_ms, 8000))
     ms = (time.time() - t0) * 1000
     if r == z3.unsat:
         return Result("unsat", "z3-5.1", ms)
@@ -91,21 +122,25 @@ def prove(hyps, goal, timeout_ms=None, want_model=True, backends=("z3", "ring", 
         ok, info = ring.prove_identity(hyps, goal)
         if ok:
             return Result("unsat", "ring-normaliser", (time.time() - t0) * 1000, reason=info)
-    # fallbacks on the SMT-LIB text
     smt2 = s.to_smt2()
-    if "cvc5" in backends and os.path.exists("/usr/bin/cvc5"):
-        st, ms2 = _run_external(["/usr/bin/cvc5", f"--tlimit={timeout_ms}", "--nl-ext-tplanes"], smt2.replace("(check-sat)", "(check-sat)"), timeout_ms / 1000)
-        if st == "unsat":
-            return Result("unsat", "cvc5-1.0", ms + ms2)
-        if st == "sat":
-            return Result("sat", "cvc5-1.0", ms + ms2, model=None, reason="model not extracted (cvc5 CLI)")
-    if "z3old" in backends and os.path.exists("/usr/bin/z3"):
-        st, ms3 = _run_external(["/usr/bin/z3", f"-T:{max(1, timeout_ms // 1000)}"], smt2, timeout_ms / 1000)
-        if st == "unsat":
-            return Result("unsat", "z3-4.8", ms + ms3)
-        if st == "sat":
-            return Result("sat", "z3-4.8", ms + ms3, model=None, reason="model not extracted (z3 4.8 CLI)")
-    return Result("unknown", "z3-5.1", (time.time() - t0) * 1000, reason=reason, smt2=smt2)
+    if candidate is None:
+        # the external back ends are only worth their time when nothing is known yet
+        if "cvc5" in backends and os.path.exists("/usr/bin/cvc5"):
+            st, ms2 = _run_external(["/usr/bin/cvc5", f"--tlimit={timeout_ms}", "--nl-ext-tplanes"], smt2, timeout_ms / 1000)
+            if st == "unsat":
+                return Result("unsat", "cvc5-1.0", (time.time() - t0) * 1000)
+            if st == "sat":
+                return Result("sat", "cvc5-1.0", (time.time() - t0) * 1000, model=None, reason="model not extracted (cvc5 CLI)")
+        if "z3old" in backends and os.path.exists("/usr/bin/z3"):
+            st, ms3 = _run_external(["/usr/bin/z3", f"-T:{max(1, timeout_ms // 1000)}"], smt2, timeout_ms / 1000)
+            if st == "unsat":
+                return Result("unsat", "z3-4.8", (time.time() - t0) * 1000)
+            if st == "sat":
+                return Result("sat", "z3-4.8", (time.time() - t0) * 1000, model=None, reason="model not extracted (z3 4.8 CLI)")
+    res = Result("unknown", "z3-5.1", (time.time() - t0) * 1000, reason=reason, smt2=smt2)
+    if candidate is not None:
+        res.candidate_model = candidate
+    return res
 
 
 def cvc5_recheck(hyps, goal, timeout_ms=None):
